@@ -183,7 +183,12 @@ func (r *DataReader) EcsLocation(q []byte, ecs *dns.EDNS0_SUBNET) (*Location, er
 	if loc.LocID != [2]byte{0, 0} {
 		ecs.SourceScope = loc.Mask
 		if ecs.Family == 1 {
-			ecs.SourceScope -= 96
+			if ecs.SourceScope >= 96 {
+				ecs.SourceScope -= 96
+			} else {
+				// not an IPv4 subnet: it says nothing about the client's family
+				ecs.SourceScope = 0
+			}
 		}
 	} else {
 		// Set default scope
